@@ -210,4 +210,6 @@ def run(eng, rep):
     rule_together(eng, rep)
     rule_snapshot_is_copy(eng, rep)
     rule_roles(eng, rep, A, rule="C11-3.labels-are-point-numbers")
+    from .c03 import rule_tuple_coherence
+    rule_tuple_coherence(eng, rep, A, rule="C11-1b.jacobian-and-labels-come-from-the-same-record")
     rule_unscaling_once(eng, rep)
